@@ -97,10 +97,24 @@ def determinism(world, seed, n):
 
 
 def setup():
-    """Pre-build the configurations the quick checks use (incremental afterwards)."""
+    """Pre-build every configuration the quick checks use (builds are incremental afterwards):
+    each check function is walked with the batch runner and the verdict step stubbed out."""
     t0 = time.time()
-    for fn in SETUP_BUILDS:
-        fn()
+    orig_rb, orig_fin, orig_we = D.run_batch, D.Outcome.finish, D.Outcome.write_evidence
+    D.run_batch = lambda *a, **k: D.Batch()
+    D.Outcome.finish = lambda self, *a, **k: 0
+    D.Outcome.write_evidence = lambda self, *a, **k: None
+    try:
+        for name in sorted(CHECKS):
+            t1 = time.time()
+            try:
+                CHECKS[name]('quick', D.DEFAULT_SEED)
+            except B.BuildError as e:
+                print('setup: build problem while preparing %s (the check itself will report it): %s' % (name, str(e)[:300]))
+            print('setup: %s prepared in %.1fs' % (name, time.time() - t1))
+            sys.stdout.flush()
+    finally:
+        D.run_batch, D.Outcome.finish, D.Outcome.write_evidence = orig_rb, orig_fin, orig_we
     print('setup done in %.1fs' % (time.time() - t0))
     return 0
 
@@ -343,7 +357,199 @@ def check_C16(tier, seed):
     return o.finish()
 
 
+TWIN_WORLDS = [('stream', 60000), ('channel', 40000), ('prng', 6000), ('keystore', 20000), ('cppobj', 40000)]
+
+
+def check_C13(tier, seed):
+    o = D.Outcome('C13', tier, seed)
+    o.components = dict(real=COMPONENTS_LIB['real'] + ['release flavour: the exact flags CMake uses for the shipped library (-O3), so an elided wipe would be elided here too'],
+                        stub=['getrandom() (tape; part of the secrets that differ between the twin runs)', 'network / storage seams of the reused worlds'])
+    o.assumptions = ['twin-secret oracle: the same plan is executed twice in one process with different keys, messages, fed entropy and entropy tape; '
+                     'after every free / clear() / destructor the raw bytes of the object must be identical in the two executions',
+                     'C++ objects are placement-constructed in harness-owned storage so that their bytes stay readable after the destructor',
+                     'constant residue (e.g. a vtable pointer, zeroes, 0xD7 dirt that was never written) is allowed: only dependence on secrets is flagged']
+    backends = ['asm', 'c32'] if tier == 'quick' else ['asm', 'c64', 'c32', 'dxor', 'gen']
+    scale = 1 if tier == 'quick' else 12
+    for bi, be in enumerate(backends):
+        for world, n in TWIN_WORLDS:
+            exe = world_exe(world, be, (4, 2, 4), 'rel')
+            k = n * scale // (1 if bi == 0 else 4)
+            o.add(D.run_batch(exe, k, tier, seed, env={'ASIM_TWIN': '1'}, label='%s@%s-rel-twin' % (world, be), crash_prop='C12'))
+    o.extra['distinct_states_measure'] = 'union of the state tuples of the reused worlds (object type x operation x phase)'
+    o.extra['objects_covered'] = ['ascon_state_t', 'incremental AEAD x3', 'hash/hasha', 'xof/xofa (plain, fixed, custom)', 'prf', 'hmac/hmaca', 'kmac/kmaca', 'kdf/kdfa',
+                                  'hkdf/hkdfa', 'ascon_random_state_t', 'ISAP pre-computed keys x3', 'masked keys 128/160', 'C++ aead/masked/siv/isap classes (destructor and clear())',
+                                  'C++ hash/hasha/xof/xofa and fixed-length templates']
+    return o.finish()
+
+
+def check_C12(tier, seed):
+    o = D.Outcome('C12', tier, seed)
+    o.components = dict(real=COMPONENTS_LIB['real'] + ['both command-line tools; everything compiled with gcc -O1 -fsanitize=address,undefined -fno-sanitize-recover (assembly files cannot be instrumented: '
+                                                       'for them exact-size buffers end against PROT_NONE guard pages in a quarter of the runs)'],
+                        stub=['all seams of the reused worlds (network, entropy, storage, simulated OS, allocator, tape TRNG)'])
+    o.assumptions = ['only sanitizer reports, guard-page faults, crashes and canary damage are C12 verdicts; functional mismatches are ignored by this check',
+                     'every output buffer is exact-size with poisoned canaries at seeded misalignments; null pointers are passed for empty optional inputs',
+                     'hostile argument vectors: file names shorter than the suffix, of BUFSIZ-8..BUFSIZ+46 characters, empty; passwords of 1020..1031 characters; key files up to ~100 KB with NUL; '
+                     'checksum lists with over-long lines, no trailing newline and binary junk; truncated containers']
+    libw = ['stream', 'channel', 'prng', 'keystore', 'cppobj', 'masked']
+    if tier == 'quick':
+        plan = [('asm', (4, 2, 4), 'san', libw, 20000), ('c64', (3, 3, 3), 'san', ['stream', 'channel', 'masked', 'cppobj'], 12000),
+                ('c32', (2, 1, 2), 'san', ['channel', 'masked', 'keystore'], 12000), ('dxor', (4, 4, 4), 'san', ['stream', 'channel', 'masked'], 8000)]
+        nb, ncli = 40000, 4000
+    else:
+        plan = [(be, sh, 'san', libw, 30000) for be, sh in [('asm', (4, 2, 4)), ('asm', (3, 1, 3)), ('asm', (2, 2, 2)), ('c64', (3, 3, 3)), ('c64', (4, 4, 4)), ('c64', (2, 1, 2)),
+                                                             ('c64', (3, 2, 4)), ('c32', (2, 1, 2)), ('c32', (3, 3, 3)), ('c32', (4, 3, 4)), ('dxor', (4, 4, 4)), ('dxor', (3, 1, 3)),
+                                                             ('gen', (4, 2, 4)), ('gen', (2, 2, 3))]]
+        nb, ncli = 200000, 40000
+    for be, sh, fl, worlds, n in plan:
+        for w in worlds:
+            exe = world_exe(w, be, sh, fl)
+            o.add(D.run_batch(exe, n // (4 if w == 'prng' else 1), tier, seed, label='%s@%s-%d%d%d-%s' % (w, be, *sh, fl), crash_prop='C12'))
+    o.add(D.run_batch(world_exe('bytes', 'asm', (4, 2, 4), 'san'), nb, tier, seed, label='bytes@asm-san', crash_prop='C12'))
+    o.add(D.run_batch(world_exe('bytes', 'asm', (4, 2, 4), 'nostlsan'), nb, tier, seed, label='bytes@asm-nostlsan', crash_prop='C12'))
+    o.add(D.run_batch(world_exe('cli', 'asm', (4, 2, 4), 'san'), ncli, tier, seed, env={'ASIM_HOSTILE': '1'}, label='cli@asm-san-hostile', crash_prop='C12', chunk=25))
+    o.extra['configurations'] = sorted({b.label.split('@')[1] for b in o.batches})
+    o.extra['distinct_states_measure'] = 'union of the state tuples of the reused worlds'
+    return o.finish()
+
+
+C09_WORLDS = [('stream', 12000), ('channel', 12000), ('prng', 3000), ('keystore', 8000), ('cppobj', 10000), ('bytes', 8000)]
+
+
+def _diff_shrink(exes, lines, tier, env, max_runs=200, max_s=60):
+    """Shrink a plan while two configurations still produce different history digests."""
+    t0 = time.time()
+    runs = [0]
+
+    def differ(ls):
+        if runs[0] >= max_runs or time.time() - t0 > max_s:
+            return False
+        runs[0] += 1
+        hs = []
+        for e in exes:
+            cl, h = D.exec_plan(e, ls, tier, env, 'C09')
+            hs.append(h)
+        return hs[0] != hs[1]
+
+    cur = list(lines)
+    n = 2
+    while len(cur) >= 2 and runs[0] < max_runs and time.time() - t0 < max_s:
+        size = max(1, len(cur) // n)
+        removed = False
+        i = 0
+        while i < len(cur):
+            cand = cur[:i] + cur[i + size:]
+            if cand and differ(cand):
+                cur = cand
+                removed = True
+            else:
+                i += size
+        if not removed:
+            if size == 1:
+                break
+            n = min(len(cur), n * 2)
+    return cur, runs[0]
+
+
+def check_C09(tier, seed):
+    import hashlib
+    o = D.Outcome('C09', tier, seed)
+    o.components = dict(real=COMPONENTS_LIB['real'] + ['one complete build of the library per configuration, each configured by /repo/CMakeLists.txt with the matching -DBACKEND_*/-D*_SHARES/-DCHECK_ACQUIRE_RELEASE options'],
+                        stub=['seams of the reused worlds (network, entropy tape, storage, allocator)'])
+    o.assumptions = ['the plan of run i is configuration independent, so "same seed => same history digest" is a checkable equality across builds',
+                     'only results that are fully determined by the inputs enter the digests (outputs, statuses, lengths); raw masked shares and object bytes do not',
+                     'world masked is not part of the differential replay (its plans depend on MAX_SHARES); masked AEAD outputs are compared through world channel',
+                     'checker build: death of the process by the library\'s own abort() is the violation']
+    if tier == 'quick':
+        cfgs = [('asm', (4, 2, 4)), ('c64', (4, 2, 4)), ('c32', (4, 2, 4)), ('dxor', (4, 2, 4)), ('gen', (4, 2, 4)), ('c64', (2, 1, 2)), ('c32', (3, 3, 3)), ('asm', (4, 4, 4)), ('c64', (3, 1, 4)), ('asm', (2, 2, 3))]
+        chk = [(4, 2, 4), (2, 1, 2), (3, 3, 3)]
+        scale = 1
+    else:
+        cfgs = [(be, (4, 2, 4)) for be in ('asm', 'c64', 'c32', 'dxor', 'gen')] + [(be, sh) for be in ('asm', 'c64', 'c32') for sh in B.ALL_SHARES if sh != (4, 2, 4)]
+        chk = [sh for sh in B.ALL_SHARES]
+        scale = 4
+    known, fixed = D.load_known()
+    violations = 0
+    known_hit, replays = [], []
+    ref_be, ref_sh = cfgs[0]
+    pairs_compared = 0
+    for world, n in C09_WORLDS:
+        n *= scale
+        ref_exe = world_exe(world, ref_be, ref_sh, 'rel')
+        ref = D.run_batch(ref_exe, n, tier, seed, label='%s@%s-%d%d%d' % (world, ref_be, *ref_sh), crash_prop='C09x')
+        o.add(ref)
+        ref_h = {r.idx: r.hist for r in ref.runs}
+        for be, sh in cfgs[1:]:
+            exe = world_exe(world, be, sh, 'rel')
+            k = n if tier == 'quick' or sh == (4, 2, 4) else n // 4
+            b = D.run_batch(exe, k, tier, seed, label='%s@%s-%d%d%d' % (world, be, *sh), crash_prop='C09x')
+            o.add(b)
+            bad = sorted(r.idx for r in b.runs if r.idx in ref_h and ref_h[r.idx] != r.hist)
+            pairs_compared += sum(1 for r in b.runs if r.idx in ref_h)
+            if not bad:
+                continue
+            idx = bad[0]
+            cls = D.VClass('C09', 'history_digest_differs_across_configurations', '%s:%s-%d%d%d' % (world, be, *sh))
+            lines = D.gen_plan(ref_exe, idx, tier, ref.env)
+            h = []
+            for e in (ref_exe, exe, ref_exe, exe):
+                h.append(D.exec_plan(e, lines, tier, ref.env, 'C09')[1])
+            if h[0] != h[2] or h[1] != h[3] or h[0] == h[1]:
+                raise D.HarnessError('cross-configuration divergence of run %d of %s did not reproduce in fresh processes: %s' % (idx, world, h))
+            small, nruns = _diff_shrink((ref_exe, exe), lines, tier, ref.env)
+            rp = os.path.join(VERIF, 'replays', 'C09-%s.json' % hashlib.sha1(cls.key().encode()).hexdigest()[:10])
+            os.makedirs(os.path.dirname(rp), exist_ok=True)
+            json.dump(dict(kind='diff', property='C09', violation_class=dict(cls._asdict()), world=world, tier=tier, env=ref.env,
+                           configs=[[ref_be, list(ref_sh), 'rel'], [be, list(sh), 'rel']], run_index=idx, runs_differing=len(bad),
+                           original_ops=len(lines), minimised_ops=len(small), shrink_reruns=nruns, plan=small), open(rp, 'w'), indent=1)
+            replays.append(rp)
+            kf = D.known_match(cls, known)
+            if kf:
+                print('KNOWN-FINDING: property=C09 %s [%s] replay=%s' % (kf.get('what', ''), cls.key(), rp))
+                known_hit.append(cls.key())
+            else:
+                violations += 1
+                print('VIOLATION property=C09 replay=%s' % rp)
+                print('  class=%s detail=%d of %d runs give a different history digest than %s-%d%d%d; minimised plan has %d operations' % (
+                    cls.key(), len(bad), len(b.runs), ref_be, *ref_sh, len(small)))
+    # (2) the acquire/release checker build under the same interleaved multi-object histories
+    for sh in chk:
+        for world, n in C09_WORLDS:
+            if world == 'bytes':
+                continue
+            exe = world_exe(world, 'chk', sh, 'rel')
+            o.add(D.run_batch(exe, n * scale // 2, tier, seed, label='%s@chk-%d%d%d' % (world, *sh), crash_prop='C09'))
+        exe = world_exe('masked', 'chk', sh, 'rel')
+        o.add(D.run_batch(exe, 4000 * scale, tier, seed, label='masked@chk-%d%d%d' % sh, crash_prop='C09'))
+    o.extra['configurations'] = ['%s-%d%d%d' % (be, *sh) for be, sh in cfgs] + ['chk-%d%d%d' % sh for sh in chk]
+    o.extra['cross_configuration_pairs_compared'] = pairs_compared
+    o.extra['distinct_states_measure'] = 'union of the state tuples of the reused worlds, per configuration'
+    o.extra_replays = replays
+    rc = o.finish()
+    if violations or known_hit:
+        # merge the differential verdicts into the evidence written by finish()
+        ev = json.load(open(os.path.join(VERIF, 'evidence', 'C09.json')))
+        ev['violations'] = ev.get('violations', 0) + violations
+        ev['coverage']['known_findings_hit'] += known_hit
+        ev['coverage']['replays'] += [os.path.relpath(p, VERIF) for p in replays]
+        json.dump(ev, open(os.path.join(VERIF, 'evidence', 'C09.json'), 'w'), indent=1)
+    return 1 if (violations or rc) else 0
+
+
+def replay_diff(d):
+    exes = [world_exe(d['world'], c[0], tuple(c[1]), c[2]) for c in d['configs']]
+    hs = [D.exec_plan(e, d['plan'], d['tier'], d.get('env', {}), 'C09')[1] for e in exes]
+    if hs[0] != hs[1]:
+        print('REPRODUCED property=C09 class=%s digests %s vs %s' % ('|'.join(d['violation_class'].values()), hs[0], hs[1]))
+        return 1
+    print('NOT-REPRODUCED property=C09: both configurations give history digest %s' % hs[0])
+    return 0
+
+
 CHECKS = {
+    'C09': check_C09,
+    'C12': check_C12,
+    'C13': check_C13,
     'C16': check_C16,
     'C17': check_C17,
     'C06': check_C06,
